@@ -39,6 +39,31 @@ def _class_attr(cls, attr):
     return None
 
 
+def _fstring_template(js):
+    out = ""
+    for v in js.values:
+        if isinstance(v, ast.Constant):
+            out += str(v.value)
+        elif isinstance(v, ast.FormattedValue):
+            out += "{" + ast.unparse(v.value) + "}"
+    return out.replace(" ", "")
+
+
+def _hist_read_templates(fn):
+    """(fixed-step template, adaptive template) of the code line emitted by add_var_hist"""
+    for st in ast.walk(fn):
+        if isinstance(st, ast.If) and "dt_adapt" in ast.unparse(st.test):
+            def tmpl(body):
+                for b in body:
+                    for n in ast.walk(b):
+                        if isinstance(n, ast.JoinedStr):
+                            return _fstring_template(n)
+                return None
+            a, b = tmpl(st.body), tmpl(st.orelse)
+            return (a, b) if "not dt_adapt" in ast.unparse(st.test) else (b, a)
+    return None, None
+
+
 def lean_str(s):
     return '"' + s.replace("\\", "\\\\").replace('"', '\\"').replace("\n", "\\n").replace("\t", "\\t") + '"'
 
@@ -68,6 +93,11 @@ def extract(repo):
         put("heunCopiesRhs", _heun_copies_rhs(heun) if heun else None)
         runf = _func(bcls, "run") if bcls else None
         put("timeAxisKind", _time_axis_kind(runf) if runf else None)
+        # ---- delayed terms (C10): the line the generated function reads its history with, per solver family
+        avh = _func(bcls, "add_var_hist") if bcls else None
+        fx, ad = _hist_read_templates(avh) if avh else (None, None)
+        put("histReadFixed", fx)
+        put("histReadAdaptive", ad)
     except Exception as e:  # pragma: no cover
         missing.append(f"base_backend.py: {e}")
     # ---- parser.replace / var_in_expression: allowed follow-up signs (C15, C05)
@@ -269,6 +299,10 @@ def render(T, missing):
         L.append(f"def {key} : Nat := {v}")
     nat("histInitialCapacity")
     nat("histGrowFactor")
+    L.append("/-- the history read emitted for fixed-step solvers is `hist(t*dt - d)[idx]` (t = step counter scaled to time units) -/")
+    L.append(f"def histFixedStepScalesT : Bool := {'true' if T.get('histReadFixed') == '{lhs}=hist(t*{dt}-{d})[{idx}]' else 'false'}")
+    L.append("/-- the history read emitted for adaptive solvers is `hist(t - d)[idx]` -/")
+    L.append(f"def histAdaptiveUsesT : Bool := {'true' if T.get('histReadAdaptive') == '{lhs}=hist(t-{d})[{idx}]' else 'false'}")
     L.append(f"def heunCopiesRhs : Bool := {'true' if T.get('heunCopiesRhs') is True else 'false'}")
     L.append(f"/-- BaseBackend.run builds `times` as np.arange(n)*step (true) or as linspace(0,T,n,endpoint=False)/unknown (false) -/")
     L.append(f"def timeAxisIsArange : Bool := {'true' if T.get('timeAxisKind') == 'arangeStep' else 'false'}")
